@@ -4,6 +4,9 @@ package main
 // driver registries, Redis URL parsing, and "the store is built from the validated config".
 
 import (
+	"github.com/chihaya/chihaya/pkg/stop"
+	"strconv"
+	"math/big"
 	"errors"
 	"fmt"
 	"math"
@@ -89,6 +92,86 @@ func valRedis(c *Ctx, brokerEmpty bool, rt, wt, ct, gc, pr, pl int64) {
 	}
 	c.Emit(fmt.Sprintf("cfg.validate pkg=redis RedisBrokerEmpty=%s RedisReadTimeout=%d RedisWriteTimeout=%d RedisConnectTimeout=%d GarbageCollectionInterval=%d PrometheusReportingInterval=%d PeerLifetime=%d", b01(brokerEmpty), rt, wt, ct, gc, pr, pl),
 		show(v)+" idem="+b01(w == v))
+}
+
+// cfg.hooks: the hook list of a configuration file, through middleware.HooksFromHookConfigs (options travel as
+// YAML maps, exactly as cmd/chihaya hands them over); stops at the first refused entry
+func cfgHooks(c *Ctx, entries []string) {
+	var cfgs []middleware.HookConfig
+	for _, e := range entries {
+		f := strings.Split(e, ":")
+		switch f[0] {
+		case "unknown":
+			cfgs = append(cfgs, middleware.HookConfig{Name: "no such hook", Options: map[string]interface{}{}})
+		case "ca":
+			o := map[string]interface{}{"whitelist": []interface{}{"lt0D60", "-AZ303"}}
+			switch f[1] {
+			case "both":
+				o["blacklist"] = []interface{}{"UT1234"}
+			case "badlen":
+				o["whitelist"] = []interface{}{"lt0D6"}
+			}
+			cfgs = append(cfgs, middleware.HookConfig{Name: "client approval", Options: o})
+		case "ta":
+			o := map[string]interface{}{"blacklist": []interface{}{"0123456789abcdef0123456789abcdef01234567"}}
+			switch f[1] {
+			case "both":
+				o["whitelist"] = []interface{}{"89abcdef0123456789abcdef0123456789abcdef"}
+			case "badhex":
+				o["blacklist"] = []interface{}{"0123456789abcdef0123456789abcdef0123456g"}
+			}
+			cfgs = append(cfgs, middleware.HookConfig{Name: "torrent approval", Options: o})
+		case "vi":
+			pn, _ := new(big.Int).SetString(f[1], 10)
+			pd, _ := new(big.Int).SetString(f[2], 10)
+			p := math.NaN() // "0:0"
+			if pd.Sign() != 0 {
+				p, _ = new(big.Rat).SetFrac(pn, pd).Float64()
+			}
+			d, _ := strconv.Atoi(f[3])
+			cfgs = append(cfgs, middleware.HookConfig{Name: "interval variation",
+				Options: map[string]interface{}{"modify_response_probability": p, "max_increase_delta": d, "modify_min_interval": true}})
+		}
+	}
+	lst := "-"
+	if len(entries) > 0 {
+		lst = strings.Join(entries, ",")
+	}
+	op := "cfg.hooks list=" + lst
+	obs := func() (o string) {
+		defer func() {
+			if p := recover(); p != nil {
+				o = "PANIC"
+			}
+		}()
+		hooks, err := middleware.HooksFromHookConfigs(cfgs)
+		for _, h := range hooks {
+			if st, ok := h.(stop.Stopper); ok {
+				<-st.Stop()
+			}
+		}
+		if err != nil {
+			return fmt.Sprintf("refused at=%d", len(hooks))
+		}
+		return fmt.Sprintf("built n=%d", len(hooks))
+	}()
+	c.Emit(op, obs)
+}
+
+func genHookLists(c *Ctx, r *Rng, n int) {
+	pool := []string{"ca:ok", "ta:ok", "vi:1:2:60", "vi:1:1:1", "ca:ok", "ta:ok", "unknown", "ca:both", "ca:badlen", "ta:both", "ta:badhex",
+		"vi:0:1:60", "vi:-1:2:60", "vi:3:2:60", "vi:1:2:0", "vi:1:2:-5", "vi:0:0:60" /* NaN */, "vi:1:1000000:1"}
+	cfgHooks(c, nil)
+	for _, e := range pool {
+		cfgHooks(c, []string{e})
+	}
+	for i := 0; i < n; i++ {
+		var l []string
+		for k := 0; k < 1+r.Intn(4); k++ {
+			l = append(l, pool[r.Intn(len(pool))])
+		}
+		cfgHooks(c, l)
+	}
 }
 
 func cfgNew(c *Ctx, kind, name string, known bool) {
@@ -186,6 +269,12 @@ func replayC20(c *Ctx, op string, a map[string]string) {
 	switch op {
 	case "vi.check":
 		replayC18(c, op, a)
+	case "cfg.hooks":
+		if a["list"] == "-" || a["list"] == "" {
+			cfgHooks(c, nil)
+		} else {
+			cfgHooks(c, strings.Split(a["list"], ","))
+		}
 	case "cfg.validate":
 		switch a["pkg"] {
 		case "http":
@@ -222,6 +311,7 @@ func runC20(c *Ctx) {
 	cfgNew(c, "store", "memory", true)
 	// hook options outside their documented ranges are refused
 	hookOptionTable(c, r)
+	genHookLists(c, r, 60)
 	for _, n := range []string{"", "nope", "Memory", "memory ", "client approval", "postgres"} {
 		cfgNew(c, "store", n, false)
 	}
